@@ -29,21 +29,24 @@ WriteClauses(e) ==
     LET f == e.file  lay == Layout(e.layout)
         tl == TempoList(f)
         ntl == Len(tl)
+        st == Starts(tl, 0)
+        dhits == DenHits(f, lay)
+        dholds == DenHolds(f, lay)
         tol(d) == IF e.on_grid THEN 6 + ntl ELSE d.bl \div 192 + 6 + ntl IN
     [ syntax |-> f.junk = 0 /\ f.bad_lines = 0,
       ln_paired |-> Paired(f, lay),
-      hits  |-> NotesMatch(DenHits(f, lay), e.chart.hits, tol, FALSE),
-      holds |-> HoldsMatch(DenHolds(f, lay), e.chart.holds, tol, FALSE),
+      hits  |-> NotesMatch(dhits, e.chart.hits, tol, FALSE),
+      holds |-> HoldsMatch(dholds, e.chart.holds, tol, FALSE),
       tempo |-> /\ Len(tl) = Len(e.chart.bpms)
                 /\ \A k \in DOMAIN tl : \E j \in DOMAIN e.chart.bpms :
-                      Abs(e.chart.bpms[j].t - TStart(tl, 0, k)) <= 6 + Len(tl) /\ Abs(e.chart.bpms[j].bl - tl[k].bl) <= 2,
+                      Abs(e.chart.bpms[j].t - st[k]) <= 6 + Len(tl) /\ Abs(e.chart.bpms[j].bl - tl[k].bl) <= 2,
       (* an object whose in-memory sample is in the #WAV table is written with that sample's id *)
       known_samples |-> LET known == { f.wavs[i].file : i \in DOMAIN f.wavs } IN
                         /\ \A i \in DOMAIN e.chart.hits : e.chart.hits[i].sample \in known =>
-                              \E d \in DenHits(f, lay) : d.c = e.chart.hits[i].c /\ Abs(d.t - e.chart.hits[i].t) <= tol(d)
+                              \E d \in dhits : d.c = e.chart.hits[i].c /\ Abs(d.t - e.chart.hits[i].t) <= tol(d)
                                                           /\ d.sample = e.chart.hits[i].sample
                         /\ \A j \in DOMAIN e.chart.holds : e.chart.holds[j].sample \in known =>
-                              \E d \in DenHolds(f, lay) : d.c = e.chart.holds[j].c /\ Abs(d.t - e.chart.holds[j].t) <= tol(d)
+                              \E d \in dholds : d.c = e.chart.holds[j].c /\ Abs(d.t - e.chart.holds[j].t) <= tol(d)
                                                            /\ d.sample = e.chart.holds[j].sample ]
 
 Clauses(e) ==
